@@ -865,14 +865,14 @@ func csvErrClass(err error) string {
 func init() {
 	facet.Register(facet.F[CodecCase]{
 		Prop: "C14", Name: "ref/json", Rule: "jsonencode: values of generated types (depth <= 3, no sets/capsules/dynamic, nulls at any depth, all finite number classes, cluster-alphabet strings); reference = encoding/json on the plain-Go mirror: byte-identical when the value holds no number, else the decoded trees must agree and every number text must denote the number at its own precision. jsondecode: documents rendered from random trees (depth <= 3) with drawn whitespace / escape styles (\\uXXXX, surrogate pairs) and number spellings (exponents, -0, > 2^64, 60 digits, 1e400), 1/5 corrupted (truncated, trailing data, quotes, bad literals); reference = encoding/json.Valid + Decoder(UseNumber) mapped to the documented result (object/tuple/primitive types, JSON null = null of the dynamic pseudo-type, numbers parsed at 512 bits); invalid documents must fail; non-trivial = structured value / invalid document",
-		Quick: 30000, Thorough: 300000, Gen: genJSONCase, Check: wrap(checkJSON),
+		Quick: 60000, Thorough: 300000, Gen: genJSONCase, Check: wrap(checkJSON),
 	})
 	facet.Register(facet.F[CodecCase]{
 		Prop: "C14", Name: "codec/inverse", Rule: "same value generator as ref/json; jsondecode(jsonencode(v)) must equal v up to the documented type loss (list->tuple, map->object, typed null->untyped null) with numbers equal under cty's documented number equality; non-trivial = nested value",
-		Quick: 30000, Thorough: 300000, Gen: genInverse, Check: wrap(checkInverse),
+		Quick: 50000, Thorough: 250000, Gen: genInverse, Check: wrap(checkInverse),
 	})
 	facet.Register(facet.F[CodecCase]{
 		Prop: "C14", Name: "ref/csv", Rule: "tables of 1-4 columns and 0-4 rows from header/field pools (empty, unicode, embedded comma / quote / LF / CRLF, leading/trailing space), fields quoted when needed or at random, LF or CRLF line ends, optional final line end, blank lines, 1/20 ragged rows, duplicate headers, empty text, unterminated or bare quotes; reference = encoding/csv ReadAll mapped to list(object(header: string)); what encoding/csv rejects, an empty text and duplicate headers must fail; non-trivial = rows with quoting or non-ASCII, or a documented error",
-		Quick: 30000, Thorough: 300000, Gen: genCSVCase, Check: wrap(checkCSV),
+		Quick: 60000, Thorough: 300000, Gen: genCSVCase, Check: wrap(checkCSV),
 	})
 }
